@@ -530,6 +530,20 @@ def World.setPorts (w : World) (k : Which) : List ((Nat × Nat) × Nat) → Exce
     let w1 ← w.on k (·.setStream v i s)
     w1.setPorts k r
 
+/-- `StreamPorts.from_inlets(xs)[i] = s` (`from_outlets` on the outlet side). -/
+def World.streamPort (w : World) (k : Which) (xs : List Nat) (i s : Nat) : Except Err World := do
+  let ports ← w.resolvePorts k xs
+  match ports[i]? with
+  | none => .error .indexError
+  | some (v, j) => w.on k (·.setStream v j s)
+
+/-- A Python slice bound against a list of length `n`: `None` is the default, a negative bound counts
+from the back, everything is clamped to `[0, n]`. -/
+def sliceBound (x : Option Int) (dflt n : Nat) : Nat :=
+  match x with
+  | none => dflt
+  | some i => if i < 0 then n - min n i.natAbs else min n i.natAbs
+
 /-- `StreamPorts.from_inlets(xs)[:] = ss` (`from_outlets` on the outlet side). -/
 def World.streamPorts (w : World) (k : Which) (xs ss : List Nat) : Except Err World := do
   let ports ← w.resolvePorts k xs
@@ -620,6 +634,12 @@ inductive Op where
   | portFrom (k : Which) (x s : Nat)
   /-- `StreamPorts.from_inlets(xs)[:] = ss` / `from_outlets` -/
   | streamPorts (k : Which) (xs ss : List Nat)
+  /-- `StreamPorts.from_inlets(xs)[i] = s` / `from_outlets` -/
+  | streamPort (k : Which) (xs : List Nat) (i s : Nat)
+  /-- `seq[a:b] = items` with arbitrary Python bounds (`None`, negative, beyond the end) -/
+  | sliceI (k : Which) (u : Nat) (a b : Option Int) (items : List (Option Nat))
+  /-- `seq.insert(-j, s)` (`j ≥ 1`): Python clamps to the front -/
+  | insertBack (k : Which) (u j s : Nat)
 
 def PortRef.ids : PortRef → List Nat
   | .idx _ => [] | .strm s => [s]
@@ -660,6 +680,9 @@ def Op.ids : Op → List Nat
   | .setOwner _ _ => []
   | .portFrom _ x s => [x, s]
   | .streamPorts _ xs ss => xs ++ ss
+  | .streamPort _ xs _ s => s :: xs
+  | .sliceI _ _ _ _ items => items.filterMap id
+  | .insertBack _ _ _ s => [s]
 
 /-- The unit objects an operation mentions (a unit cannot be referred to before it is constructed). -/
 def Op.units : Op → List Nat
@@ -690,6 +713,9 @@ def Op.units : Op → List Nat
   | .setOwner u v => u :: v.toList
   | .portFrom _ _ _ => []
   | .streamPorts _ _ _ => []
+  | .streamPort _ _ _ _ => []
+  | .sliceI _ u _ _ _ => [u]
+  | .insertBack _ u _ _ => [u]
 
 def World.exec (w : World) : Op → Except Err World
   | .newStream => .ok w.newStream.1
@@ -742,6 +768,12 @@ def World.exec (w : World) : Op → Except Err World
   | .setOwner u v => .ok { w with owner := fun x => if x = u then v else w.owner x }
   | .portFrom k x s => w.portFrom k x s
   | .streamPorts k xs ss => w.streamPorts k xs ss
+  | .streamPort k xs i s => w.streamPort k xs i s
+  | .sliceI k u a b items =>
+    let n := ((w.side k).lst u).length
+    w.on k (·.setStreams u (sliceBound a 0 n) (sliceBound b n n) items)
+  | .insertBack k u j s =>
+    w.on k (·.insertAt u (((w.side k).lst u).length - min ((w.side k).lst u).length j) s)
 
 /-- One operation.  An operation can only mention stream and unit objects that exist
 (ids below the allocation counters); anything else is outside the property's
